@@ -82,8 +82,9 @@ fn sampled(rng: &mut Rng, c08: bool) -> Scenario {
     // C08 also covers runs whose output is filtered by first_step (C09's observation mode excludes
     // them: such runs are blocked there). Roots are then biased to lie before x0 + first_step,
     // where the handler skips outputs.
-    let with_first_step = c08 && sc.method != Meth::RK4 && rng.bool(0.25);
-    if with_first_step {
+    // (the base generator itself may have set a first_step: singular-by-construction starts)
+    let with_first_step = sc.first_step.is_some() || (c08 && sc.method != Meth::RK4 && rng.bool(0.25));
+    if with_first_step && sc.first_step.is_none() {
         sc.first_step = Some(sc.dir() * sc.span() * rng.logu(1e-3, 0.6));
     }
     if rng.bool(0.2) {
